@@ -20,7 +20,8 @@ class CountingFitness(FitnessFunction):
         self.eval_count += 1
         with REAL_CALLS.get_lock():
             REAL_CALLS.value += 1
-        return float(individual.values[0])
+        # training_data doubles as an offset that can be changed IN PLACE between two evaluation phases (None: no offset)
+        return float(individual.values[0]) + float(self.training_data or 0.0)
 
 
 class ToyOptimizer:
